@@ -1,18 +1,20 @@
 (* C02 — guest memory accesses never leave the linear memory.
-   PARTIAL: instruction selection/encoding after address-mode lowering, the register allocator and the native
-   code are exercised by the C02 run (all widths, bases and static offsets over the whole 32-bit range incl.
-   >= 2^31, memories from 1 page to just under 4 GiB, accesses placed around earlier checks, calls, memory.grow,
-   block joins and loops, both engines versus W), not modelled. The three pieces of the compiler on which the
-   property rests are modelled and tied DIRECTLY to the code (overlay wrappers, checks/c02_amode.py and
-   checks/c02_elide.py): the emitted bounds check (Engine/Bounds.v), lowerToAddressMode (Engine/Amode.v, compared
-   with the real function on enumerated and random SSA trees) and the known-safe-bounds cache as a dataflow
-   analysis over control-flow graphs (Engine/Elide.v, compared with the real cache while the real frontend lowers
-   generated functions). A fourth stream (checks/c02_guard.py, harness/c02/guard*.go) runs ACCESS programs of every
+   PARTIAL: instruction selection (which opcode / prefix / REX.W an instruction hands to the operand encoder), the
+   register allocator and the native code are exercised by the C02 run (all widths, bases and static offsets over
+   the whole 32-bit range incl. >= 2^31, memories from 1 page to just under 4 GiB, accesses placed around earlier
+   checks, calls, memory.grow, block joins and loops, both engines versus W), not modelled. The four pieces of the
+   compiler on which the property rests are modelled and tied DIRECTLY to the code (overlay wrappers,
+   checks/c02_amode.py, checks/c02_elide.py, checks/c02_enc.py): the emitted bounds check (Engine/Bounds.v),
+   lowerToAddressMode (Engine/Amode.v, compared with the real function on enumerated and random SSA trees), the
+   known-safe-bounds cache as a dataflow analysis over control-flow graphs (Engine/Elide.v, compared with the real
+   cache while the real frontend lowers generated functions) and the ENCODING of the memory operand (Engine/X86Enc.v:
+   encodeEncMem / encodeEncEnc / the rip-relative label fix-up, against a decoder of the x86-64 instruction format
+   written from the Intel SDM; theorems at the end of this file; compared byte for byte with the real encoder). A fourth stream (checks/c02_guard.py, harness/c02/guard*.go) runs ACCESS programs of every
    instruction family (plain, SIMD, atomic, bulk; loads feeding every kind of consumer directly) at the end of
    memories that are followed by an inaccessible page, in child processes, and compares every call with the
    byte-level model Engine/Access.v (theorems at the end of this file). Proved here: *)
 From Coq Require Import ZArith List Bool.
-From Verif Require Import Lib.GoInt Gen.GenWasm Engine.Bounds Engine.Amode Engine.Elide Engine.Access Wasm.Numerics Wasm.Sem Proofs.BoundsP Proofs.AmodeP Proofs.ElideP Proofs.SemP Proofs.AccessP.
+From Verif Require Import Lib.GoInt Gen.GenWasm Engine.Bounds Engine.Amode Engine.Elide Engine.Access Engine.X86Enc Wasm.Numerics Wasm.Sem Proofs.BoundsP Proofs.AmodeP Proofs.ElideP Proofs.SemP Proofs.AccessP Proofs.X86EncP.
 Import ListNotations.
 Open Scope Z_scope.
 
@@ -229,3 +231,133 @@ Theorem C02_window_sound : forall pre w post a,
   end.
 Proof. exact run_window. Qed.
 Print Assumptions C02_window_sound.
+
+(* ================= the BYTES of a memory operand (Engine/X86Enc.v) =================
+   encode_mem / encode_rr transcribe wazero's encodeEncMem / encodeEncEnc (legacy prefixes, REX, opcode bytes, ModRM,
+   SIB, disp8/disp32; None = the Go function panics). decode is a decoder of the x86-64 instruction format written
+   from the Intel SDM for instructions of the shape [66/F0/F2/F3]* [REX] opcode(1-3 bytes: xx | 0F xx | 0F 38 xx |
+   0F 3A xx) ModRM [SIB] [disp8/disp32]; it finds every field boundary by itself and is not derived from the encoder.
+   Registers are x86 register numbers 0..15; xamode_wf a: imm32 < 2^32, registers < 16, shift <= 3;
+   index_not_rsp a: the index register of base+index<<shift is not rsp (number 4) — the encoder's own precondition;
+   opcode_wf: the opcode bytes are one opcode of that map (first byte not a prefix / REX / VEX byte). The register
+   space (2 REX flags x 16 reg x 16 base x 16 index x 4 shifts x 3 mod values) is discharged by vm_compute
+   (Proofs/X86EncFinP.v), the displacement and everything around the operand stay universally quantified. *)
+
+(* for EVERY operand the lowering can hand over — all 16 bases, all 15 legal indexes, all shifts, all 32-bit
+   displacements, rbp-relative and rip-relative — every reg field, REX setting, legacy prefix and opcode, and whatever
+   bytes follow: the decoder reads back exactly the prefixes, REX.W, the opcode, the reg field and the memory operand
+   that went in, and consumes exactly the emitted bytes *)
+Theorem C02_mem_operand_roundtrip : forall ri p opcodes n r a rest,
+  0 <= p <= 5 -> opcode_wf (opcode_bytes opcodes n) = true -> 0 <= r < 16 -> xamode_wf a -> index_not_rsp a ->
+  exists bs pb, encode_mem ri p opcodes n r a = Some bs /\ prefix_bytes p = Some pb /\
+    decode (bs ++ rest) = Some {| d_prefixes := pb; d_w := Z.testbit ri 0; d_opcode := opcode_bytes opcodes n;
+                                  d_reg := r; d_rm := OMem (mem_of a); d_len := length bs |}.
+Proof. exact mem_operand_roundtrip. Qed.
+Print Assumptions C02_mem_operand_roundtrip.
+
+(* the encoder's precondition, exactly: it panics iff the legacy-prefix value is invalid or rsp is the index *)
+Theorem C02_encoder_precondition : forall ri p opcodes n r a,
+  encode_mem ri p opcodes n r a = None <-> ~ (0 <= p <= 5) \/ (exists imm bs sh, a = XRegRegShift imm bs 4 sh).
+Proof. exact encode_mem_panics_iff. Qed.
+Print Assumptions C02_encoder_precondition.
+
+(* consequently the operand the CPU decodes computes the address of the addressing mode (Engine/Amode.v's
+   eval_amode over the values regs gives to the mode's registers): base + index * 2^shift + sign-extended disp32
+   modulo 2^64 *)
+Theorem C02_encoded_operand_address : forall ri p opcodes n r a rest regs rip am,
+  0 <= p <= 5 -> opcode_wf (opcode_bytes opcodes n) = true -> 0 <= r < 16 -> xamode_wf a -> index_not_rsp a ->
+  amode_vals regs a = Some am ->
+  exists bs d m, encode_mem ri p opcodes n r a = Some bs /\ decode (bs ++ rest) = Some d /\
+    d_len d = length bs /\ d_reg d = r /\ d_w d = Z.testbit ri 0 /\ d_opcode d = opcode_bytes opcodes n /\
+    d_rm d = OMem m /\ ea_of_decoded regs rip m = eval_amode am.
+Proof. exact encoded_operand_address. Qed.
+Print Assumptions C02_encoded_operand_address.
+
+(* the chain SSA pointer expression -> lowerToAddressMode -> bytes -> effective address, closed (composition with
+   C02_amode_correct): whenever the registers named by the encoded mode hold the values of the parts of the mode the
+   lowering built (register allocation: not modelled), the emitted bytes decode to an operand whose effective address
+   is pointer value + static offset modulo 2^64 *)
+Theorem C02_lowered_access_address_bytes : forall rg e off regs a ri p opcodes n r rest rip,
+  lowerable off e = true -> zext_ok rg off e -> 0 <= off < W32 ->
+  amode_vals regs a = Some (lower_to_amode true rg e off) ->
+  0 <= p <= 5 -> opcode_wf (opcode_bytes opcodes n) = true -> 0 <= r < 16 -> xamode_wf a -> index_not_rsp a ->
+  exists bs d m, encode_mem ri p opcodes n r a = Some bs /\ decode (bs ++ rest) = Some d /\
+    d_len d = length bs /\ d_reg d = r /\ d_rm d = OMem m /\
+    ea_of_decoded regs rip m = w64 (ev rg e + off).
+Proof. exact lowered_access_address_bytes. Qed.
+Print Assumptions C02_lowered_access_address_bytes.
+
+(* the register-register form (encodeEncEnc): mod = 11, both register numbers read back *)
+Theorem C02_reg_reg_roundtrip : forall ri p opcodes n r rm rest,
+  0 <= p <= 5 -> opcode_wf (opcode_bytes opcodes n) = true -> 0 <= r < 16 -> 0 <= rm < 16 ->
+  exists bs pb, encode_rr ri p opcodes n r rm = Some bs /\ prefix_bytes p = Some pb /\
+    decode (bs ++ rest) = Some {| d_prefixes := pb; d_w := Z.testbit ri 0; d_opcode := opcode_bytes opcodes n;
+                                  d_reg := r; d_rm := OReg rm; d_len := length bs |}.
+Proof. exact reg_reg_roundtrip. Qed.
+Print Assumptions C02_reg_reg_roundtrip.
+
+(* the classic encoder bugs, each as a statement about the fields the SDM parser finds in the emitted bytes
+   (parse: prefixes, REX, opcode, ModRM, SIB, displacement bytes). xa_imm / xa_base: the mode's imm32 and base.
+   (a) one displacement byte (mod = 01) exactly when the displacement sign-extends from 8 bits and cannot be
+   dropped; none (mod = 00) exactly when it is zero and the base is neither rbp nor r13; four (mod = 10) exactly when
+   it does not fit 8 bits; and the displacement bytes, sign-extended, are the displacement *)
+Theorem C02_disp8_iff_fits : forall ri p opcodes n r a rest,
+  0 <= p <= 5 -> opcode_wf (opcode_bytes opcodes n) = true -> 0 <= r < 16 -> xamode_wf a -> index_not_rsp a ->
+  xa_is_rip a = false ->
+  exists bs raw, encode_mem ri p opcodes n r a = Some bs /\ parse (bs ++ rest) = Some raw /\
+    let imm := xa_imm a in let b := xa_base a in
+    let fits := -128 <= sext32 imm <= 127 in let droppable := imm = 0 /\ b <> 5 /\ b <> 13 in
+    (modrm_mod (rw_modrm raw) = 1 <-> fits /\ ~ droppable) /\
+    (length (rw_disp raw) = 1%nat <-> fits /\ ~ droppable) /\
+    (modrm_mod (rw_modrm raw) = 0 <-> droppable) /\ (rw_disp raw = [] <-> droppable) /\
+    (modrm_mod (rw_modrm raw) = 2 <-> ~ fits) /\ (length (rw_disp raw) = 4%nat <-> ~ fits) /\
+    disp_val (rw_disp raw) = sext32 imm.
+Proof. exact disp8_iff_fits. Qed.
+Print Assumptions C02_disp8_iff_fits.
+
+(* (b) rbp / r13 as base never use mod = 00 (that pattern means rip-relative, or "no base" under a SIB byte): a
+   displacement is always emitted and the decoder reads the base back *)
+Theorem C02_rbp_r13_never_mod00 : forall ri p opcodes n r a rest,
+  0 <= p <= 5 -> opcode_wf (opcode_bytes opcodes n) = true -> 0 <= r < 16 -> xamode_wf a -> index_not_rsp a ->
+  xa_is_rip a = false -> xa_base a = 5 \/ xa_base a = 13 ->
+  exists bs raw d, encode_mem ri p opcodes n r a = Some bs /\ parse (bs ++ rest) = Some raw /\
+    modrm_mod (rw_modrm raw) <> 0 /\ rw_disp raw <> [] /\
+    decode (bs ++ rest) = Some d /\ d_rm d = OMem (mem_of a).
+Proof. exact rbp_r13_never_mod00. Qed.
+Print Assumptions C02_rbp_r13_never_mod00.
+
+(* (c) rsp / r12 as base always carry the SIB byte 0x24 (scale 0, no index, base 100) and no other base does;
+   base + index<<shift always has r/m = 100 and a SIB byte with exactly scale = shift, index and base = the low
+   three bits of the register numbers (their fourth bits are REX.X / REX.B, see the round trip) *)
+Theorem C02_rsp_r12_always_sib : forall ri p opcodes n r a rest,
+  0 <= p <= 5 -> opcode_wf (opcode_bytes opcodes n) = true -> 0 <= r < 16 -> xamode_wf a -> index_not_rsp a ->
+  exists bs raw, encode_mem ri p opcodes n r a = Some bs /\ parse (bs ++ rest) = Some raw /\
+    match a with
+    | XImmReg _ b => (rw_sib raw = Some 36 <-> b = 4 \/ b = 12) /\ (rw_sib raw = None <-> b <> 4 /\ b <> 12) /\
+                     modrm_rm (rw_modrm raw) = b mod 8
+    | XRegRegShift _ b ix sh =>
+        modrm_rm (rw_modrm raw) = 4 /\
+        exists s, rw_sib raw = Some s /\ sib_scale s = sh /\ sib_index s = ix mod 8 /\ sib_base s = b mod 8
+    | XImmRBP _ | XRipRel _ => rw_sib raw = None /\ modrm_rm (rw_modrm raw) = 5
+    end.
+Proof. exact rsp_r12_always_sib. Qed.
+Print Assumptions C02_rsp_r12_always_sib.
+
+(* rip-relative operands and machine.Encode's label fix-up: the instruction sits at offset |pre| of the buffer;
+   its last four bytes are overwritten with uint32(int32(target - end of the instruction)). Afterwards the buffer is
+   unchanged around it, it decodes to the same prefixes / opcode / reg with a RIP-relative operand, and that operand
+   addresses the label wherever the code is placed: next-instruction address + displacement = label address
+   (labels within +-2 GiB) *)
+Theorem C02_riprel_fixup : forall ri p opcodes n r l pre post target codebase regs,
+  0 <= p <= 5 -> opcode_wf (opcode_bytes opcodes n) = true -> 0 <= r < 16 ->
+  exists bs pb, encode_mem ri p opcodes n r (XRipRel l) = Some bs /\ prefix_bytes p = Some pb /\
+    let iend := Z.of_nat (length pre + length bs) in
+    - 2147483648 <= target - iend < 2147483648 ->
+    let buf' := fixup_rip (pre ++ bs ++ post) iend target in
+    firstn (length pre) buf' = pre /\ skipn (length pre + length bs) buf' = post /\
+    decode (skipn (length pre) buf') =
+      Some {| d_prefixes := pb; d_w := Z.testbit ri 0; d_opcode := opcode_bytes opcodes n; d_reg := r;
+              d_rm := OMem (MRip (target - iend)); d_len := length bs |} /\
+    ea_of_decoded regs (codebase + iend) (MRip (target - iend)) = w64 (codebase + target).
+Proof. exact riprel_fixup. Qed.
+Print Assumptions C02_riprel_fixup.
